@@ -186,4 +186,31 @@ CHECKS = {
              "thorough": {"checks": 4000, "shards": 16, "timeout": 3600, "shrink": "60s"}},
         ],
     },
+    "C17": {
+        "level": "exploration",
+        "rule": "rapid-generated cases: store pre-fill (fresh / partial / full; filter headers lagging) x 1-3 peers (honest, not serving blocks, not serving filters, silent, slow with a generated response delay, some ahead of the client) x 0-5 in-flight callers started at generated instants (GetBlock, GetCFilter, Rescan, GetUtxo, SendTransaction, block subscription reader) x the virtual instant at which Stop is called. Oracle: Stop returns within 120 virtual seconds, every caller the harness started returns within the same bound, the data directory reopens and passes the C01 walk and the C03 structural checks. Non-trivial = at least one caller was blocked inside the client when Stop began; distinct = distinct case JSON",
+        "assumptions": NETSIM_ASSUME + [
+            "at most one GetCFilter caller (callers serialise on a sync.Mutex held across the network query, which would freeze the bubble's clock)",
+            "a goroutine left blocked inside the client after Stop that is not a harness caller is recorded as an observation, not as a violation of this property",
+        ],
+        "units": [
+            {"name": "netsim", "module": "harness", "pkg": "./checks/c17", "test": "TestC17", "tags": "verif",
+             "quick": {"checks": 12, "shards": 16, "timeout": 900, "shrink": "10s"},
+             "thorough": {"checks": 250, "shards": 16, "timeout": 7200, "shrink": "60s"}},
+        ],
+    },
+    "C04": {
+        "level": "exploration",
+        "rule": "rapid-generated free-running simulations: 1-2 honest peers plus 0-4 adversaries acting on timers (mutated header batches, a strictly lighter fork announced again and again, filter-header liars of three provable kinds, garbage bytes, silence after the handshake, inflated advertised height with empty headers replies, flapping), generated connection delays (connection order), and an honest-side script of extensions and reorganisations over virtual time. Safety is sampled every 250 virtual ms: BestBlock is a block of a valid chain from genesis and its committed filter header is the true one. Bounded liveness: within 30 virtual minutes after the honest chain stops changing BestBlock equals the honest best tip with the true filter header. Non-trivial = an adversary sent at least one harmful message before convergence, or the honest side reorganised; distinct = distinct case JSON",
+        "assumptions": NETSIM_ASSUME + [
+            "'eventually' is approximated by a 30-virtual-minute deadline (far above every timeout and back-off on the path); a miss is reported with the trace",
+            "filter-header liars are only let in after an honest peer has completed its handshake (otherwise a lie is committed with no honest responder around, which the property does not exclude)",
+            "the lighter-fork adversary's branch is strictly lighter than the honest chain (with equal work the first chain seen rightly wins)",
+        ],
+        "units": [
+            {"name": "netsim", "module": "harness", "pkg": "./checks/c04", "test": "TestC04", "tags": "verif",
+             "quick": {"checks": 20, "shards": 16, "timeout": 900, "shrink": "15s"},
+             "thorough": {"checks": 300, "shards": 16, "timeout": 5400, "shrink": "60s"}},
+        ],
+    },
 }
